@@ -331,6 +331,8 @@ func replay(run *hx.Run, lines []string) {
 			entryReplay(run, ws)
 		case "gc":
 			msgIDReplay(run, ws)
+		case "ms":
+			metricsReplay(run, ws)
 		case "f":
 			fuzzReplay(run, ws)
 		case "k":
